@@ -3,7 +3,7 @@
 import glob, os, subprocess, sys
 wt = "/tmp/wt/rebase"
 subprocess.run(["git", "-C", "/repo", "worktree", "remove", "--force", wt], capture_output=True)
-subprocess.run(["git", "-C", "/repo", "worktree", "add", "-q", wt, "HEAD"], check=True)
+subprocess.run(["git", "-C", "/repo", "worktree", "add", "-q", "--detach", wt, os.environ.get("REV", "HEAD")], check=True)
 try:
     for pf in sorted(glob.glob("/verif/seeded/*/patch.diff") + glob.glob("/verif/benign/*/patch.diff")):
         subprocess.run(["git", "-C", wt, "reset", "-q", "--hard", "HEAD"]); subprocess.run(["git", "-C", wt, "clean", "-qfd"])
